@@ -645,6 +645,11 @@ func checkC20(tier, replay string) int {
 		for _, typ := range []string{"asa", "ios", "panos", "nsx"} {
 			pairs = append(pairs, genPair(typ, gbase+int64(i)).pair())
 		}
+		for _, typ := range []string{"asa", "ios"} {
+			c := genC14(typ, gbase+int64(i))
+			pairs = append(pairs, &pairCase{Model: modelOf(typ), Device: c.Device, Files: c.Files,
+				Origin: fmt.Sprintf("%s c14 seed=%d mode=%s", typ, c.Seed, c.Mode)})
+		}
 		lc := genC05(gbase + int64(i))
 		pairs = append(pairs, &pairCase{Model: "Linux", Device: lc.Device, Files: map[string]string{"router": lc.Spoc},
 			Origin: fmt.Sprintf("linux seed=%d", lc.Seed)})
